@@ -299,6 +299,32 @@ class ShimLock:
         return False
 
 
+class ShimRLock(ShimLock):
+    """re-entrant variant: only the outermost acquire/release are lock operations"""
+
+    def __init__(self, sched):
+        super().__init__(sched)
+        self.depth = 0
+
+    def acquire(self, blocking=True, timeout=-1):
+        me = self.s.current()
+        if me is not None and self.holder == me.tid and not self.s.aborting:
+            self.depth += 1
+            return True
+        ok = super().acquire(blocking, timeout)
+        if ok:
+            self.depth = 1
+        return ok
+
+    def release(self):
+        me = self.s.current()
+        if me is not None and not self.s.aborting and self.holder == me.tid and self.depth > 1:
+            self.depth -= 1
+            return
+        self.depth = 0
+        super().release()
+
+
 class ShimEvent:
     def __init__(self, sched: Scheduler):
         self.s = sched
@@ -337,6 +363,12 @@ class ShimEvent:
         s._micro(me)
         if s.mode == "sync":
             s.yield_point(why=("pre-wait", self.id))
+        if timeout is not None and not self.flag:
+            # a timed wait may time out at once: it does not block, it reports "not set"
+            s.op(("waitto", self.id))
+            if s.mode == "sync":
+                s.yield_point(why=("post-waitto", self.id))
+            return False
         if not self.flag:
             if s.observer is not None:
                 s.observer.blocked(me.tid, ("wait", self.id))
@@ -357,8 +389,15 @@ class ShimThreading:
     def Event(self):
         return ShimEvent(self._s)
 
+    def RLock(self):
+        return ShimRLock(self._s)
+
     def __getattr__(self, name):
+        if name in ("Condition", "Semaphore", "BoundedSemaphore", "Barrier"):
+            # an unscheduled primitive would block a real thread behind the scheduler's back: refuse loudly
+            raise NotImplementedError(f"threading.{name} is not provided by the scheduler shim")
         return getattr(_rt, name)
+
 
 
 # ------------------------------------------------------------------------------------------------
@@ -445,7 +484,7 @@ class DfsChooser:
         return pick
 
 
-def dfs(run_once, max_runs, keyfn=None, preemption_bound=None):
+def dfs(run_once, max_runs, keyfn=None, preemption_bound=None, stop_fn=None):
     """Stateless depth-first enumeration of the schedules of `run_once(chooser)`.
 
     keyfn(sched) -> hashable abstract state at a choice point: a state seen before is not expanded again
@@ -488,7 +527,7 @@ def dfs(run_once, max_runs, keyfn=None, preemption_bound=None):
                 alts = [t for t in alts if t == cur or pre_at[i] + 1 <= preemption_bound]
             if alts:
                 pending.append(([x[1] for x in log[:i]], alts))
-        if runs >= max_runs:
+        if runs >= max_runs or (stop_fn is not None and stop_fn()):
             return runs, False
         while pending and not pending[-1][1]:
             pending.pop()
